@@ -128,6 +128,12 @@ func init() {
 	add(word("${v:-'q'}", wPEB("v", ":-", ast.Word{wSQ("q")})))
 	add(word(`${v:-"d"}`, wPEB("v", ":-", ast.Word{wDQ(wLit("d"))})))
 	add(word("${v:-${w}}", wPEB("v", ":-", ast.Word{wPEB("w", "", nil)})))
+	add(word("${v:-`c`}", wPEB("v", ":-", ast.Word{wCS(false, simpleCmd("c"))})))
+	add(word("${v%`c`}", wPEB("v", "%", ast.Word{wCS(false, simpleCmd("c"))})))
+	add(word("${v:-$(c)}", wPEB("v", ":-", ast.Word{wCS(true, simpleCmd("c"))})))
+	add(word("${v:-a`c`b}", wPEB("v", ":-", ast.Word{wLit("a"), wCS(false, simpleCmd("c")), wLit("b")})))
+	add(word("${v:-$((1))}", wPEB("v", ":-", ast.Word{wAE(wLit("1"))})))
+	add(word("${v:-~}", wPEB("v", ":-", ast.Word{wLit("~")})))
 	add(word("${v:-$w}", wPEB("v", ":-", ast.Word{wPE("w")})))
 	add(word("$(c)", wCS(true, simpleCmd("c"))))
 	add(word("$(c d)", wCS(true, simpleCmd("c", "d"))))
@@ -164,6 +170,10 @@ func init() {
 	add(word("$(($v+é))", wAE(wPE("v"), wLit("+é"))))
 	add(word(`$((é+"d"))`, wAE(wLit("é+"), wDQ(wLit("d")))))
 	add(word("$((1 + $v))", wAE(wLit("1"), wLit("+"), wPE("v"))))
+	add(word("$((é + 1))", wAE(wLit("é"), wLit("+"), wLit("1"))))
+	add(word("$((é  + $v))", wAE(wLit("é"), wLit("+"), wPE("v"))))
+	add(word("$(($é 1))", wAE(wPE("é"), wLit("1"))))
+	add(sym{text: "((é + 1))", kind: kArith, parts: func() ast.Word { return ast.Word{wLit("é"), wLit("+"), wLit("1")} }})
 	add(sym{text: "((é+$v))", kind: kArith, parts: func() ast.Word { return ast.Word{wLit("é+"), wPE("v")} }})
 	// a "$" that introduces nothing is an ordinary character (go.sh keeps it as a literal part of its own)
 	add(word("$", wLit("$")))
@@ -220,6 +230,10 @@ func init() {
 	h3.text, h3.num = "3<<E", "3"
 	add(h3)
 	for _, t := range []string{"'q", `"q`, "${v", "$(", "`", "$((", "${", "${v:-"} {
+		add(sym{text: t, kind: kBroken})
+	}
+	// substitutions that are closed but whose content is ill-formed (the error arises in a nested parse)
+	for _, t := range []string{"`a |`", "$(a |)", "`!`", "$( ; )", "\"`a |`\"", "$(a `b |`)", "$((`;`))", "${v:-`a |`}"} {
 		add(sym{text: t, kind: kBroken})
 	}
 }
